@@ -22,7 +22,7 @@ theorem dropWhile_none {α} (p : α → Bool) (l : List α) (h : ∀ a ∈ l, p 
 
 namespace Work
 
-variable {g : Forest} {R : List HTree} {fs : List Frame} {c : Nat} {vc : Value} {K : List HTree}
+variable {g : Forest} {R : List HTree} {fs : List CFrame} {c : Nat} {vc : Value} {K : List HTree}
   {n : Nat} {v : Value}
 
 theorem isRoot_focus (w : Work g R fs c vc K n v) (hfs : fs ≠ []) : g.isRoot c = false := by
